@@ -88,6 +88,9 @@ func init() {
 
 // give every numeric / string slice field reachable from obj a window of ONE shared backing array (capacity reaching
 // over the following windows), as a caller that carved its lists out of one allocation would
+// shareStride is the distance between consecutive windows: 2 = adjacent windows, 0 = every list is the SAME window
+var shareStride = 2
+
 func shareBacking(rv reflect.Value, pools map[reflect.Type]reflect.Value, used map[reflect.Type]int) {
 	switch rv.Kind() {
 	case reflect.Ptr, reflect.Interface:
@@ -117,7 +120,7 @@ func shareBacking(rv reflect.Value, pools map[reflect.Type]reflect.Value, used m
 		if off+n > 64 {
 			return
 		}
-		used[rv.Type()] = off + n
+		used[rv.Type()] = off + shareStride
 		rv.Set(pools[rv.Type()].Slice(off, off+n)) // len 2, capacity up to the end of the pool
 	}
 }
@@ -135,9 +138,13 @@ func init() {
 				// (a) receivers whose lists are windows of one shared allocation
 				v := g.msg(t.ID, true, 0)
 				r := goEnc(v, nil, BufMode{})
-				if r.Class == "ok" {
+				for _, stride := range []int{2, 0} {
+					if r.Class != "ok" {
+						break
+					}
 					fresh := goDec(t.ID, r.Appended, BufMode{})
 					obj := newObj(g.msg(t.ID, true, 0))
+					shareStride = stride
 					shareBacking(reflect.ValueOf(obj), map[reflect.Type]reflect.Value{}, map[reflect.Type]int{})
 					line := fmt.Sprintf("dec %d %s", t.ID, hexOf(r.Appended))
 					begin(line)
